@@ -108,7 +108,11 @@ Print Assumptions C17_derive_bytes_as_coded_is_hkdf.
 (* SALT SEPARATION as a reduction, about derive_key: two derivations from one deriver key with
    different caller salts that yield the same key material of positive length exhibit a
    collision of HMAC truncated to n = min(key length, HashLen) > 0 bytes, under the key PRK,
-   on the two different messages salt || 0x01 and salt' || 0x01. *)
+   on the two different messages salt || 0x01 and salt' || 0x01.
+   (Checked against algebraic identities of the construction: ONE key on both sides, so HMAC key
+   normalisation is not involved; HMAC / HKDF have no identity on the message side -- the message
+   reaches the inner hash verbatim after a fixed-length block; the event is refutable, see
+   C17_salt_separation_event_refutable.) *)
 Theorem C17_salt_separation_reduction :
   forall hmac edpub, (forall h k m, length (hmac h k m) = hash_len h) ->
   forall k id id' salt salt' dk dk',
@@ -125,33 +129,58 @@ Theorem C17_salt_separation_reduction :
 Proof. exact salt_separation_reduction. Qed.
 Print Assumptions C17_salt_separation_reduction.
 
-(* PRF-KEY SEPARATION as a reduction: two deriver keys (same hash, same derived type) whose PRF
-   keys differ in the key bytes or in the EFFECTIVE salt (empty = HashLen zeros) and that derive
-   the same material of positive length for one caller salt exhibit either a full-length HMAC
-   collision in Extract on different (key, message) pairs, or a collision of HMAC truncated to
-   n > 0 bytes on salt || 0x01 under two different keys PRK <> PRK'. *)
+(* PRF-KEY SEPARATION as a reduction, MODULO HMAC KEY NORMALISATION.  The HMAC is RFC 2104 over an
+   arbitrary hash of the right output length (std_hmac Hash), and Extract keys are compared after the
+   normalisation RFC 2104 applies to a key (Hmac.hmac_key: hashed if longer than the block, then
+   zero-padded to the block size) -- two byte strings with the same normalisation ARE the same HMAC key,
+   and HMAC agrees on them by an identity, not by a collision (that class is the refuted one below and
+   is excluded here by the premise).  Two deriver keys (same hash, same derived type) whose
+   (normalised effective salt, key bytes) differ and that derive the same material of positive length
+   for one caller salt exhibit
+     either an Extract collision: HMAC agrees on two (key, message) pairs whose NORMALISED keys or
+            messages differ (by C17_hmac_collision_is_hash_collision: a collision of the hash itself),
+     or     a collision of HMAC truncated to n = min(key length, HashLen) > 0 bytes on salt || 0x01
+            under two keys PRK, PRK' whose normalisations differ. *)
 Theorem C17_prf_key_separation_reduction :
-  forall hmac edpub, (forall h k m, length (hmac h k m) = hash_len h) ->
-  forall k k' id id' salt dk dk',
+  forall (Hash : hash_alg -> bytes -> bytes), (forall a x, length (Hash a x) = digest_size a) ->
+  forall edpub k k' id id' salt dk dk',
     k_hash k = k_hash k' -> k_type k = k_type k' ->
-    (eff_salt (k_hash k) (k_salt k), k_ikm k) <> (eff_salt (k_hash k') (k_salt k'), k_ikm k') ->
-    (0 < consumption (k_type k))%nat ->
-    derive_key hmac edpub k id salt = Some dk ->
-    derive_key hmac edpub k' id' salt = Some dk' ->
-    r_material dk = r_material dk' ->
     let h := k_hash k in
-    let prk := Derive.hkdf_extract hmac h (k_salt k) (k_ikm k) in
-    let prk' := Derive.hkdf_extract hmac h (k_salt k') (k_ikm k') in
+    let H := Hash (alg_of h) in let B := block_size (alg_of h) in
+    (hmac_key H B (eff_salt h (k_salt k)), k_ikm k)
+      <> (hmac_key H B (eff_salt h (k_salt k')), k_ikm k') ->
+    (0 < consumption (k_type k))%nat ->
+    derive_key (std_hmac Hash) edpub k id salt = Some dk ->
+    derive_key (std_hmac Hash) edpub k' id' salt = Some dk' ->
+    r_material dk = r_material dk' ->
+    let prk := hmac H B (eff_salt h (k_salt k)) (k_ikm k) in
+    let prk' := hmac H B (eff_salt h (k_salt k')) (k_ikm k') in
     let n := Nat.min (consumption (k_type k)) (hash_len h) in
     (0 < n <= hash_len h)%nat /\
-    ((length (hmac h (eff_salt h (k_salt k)) (k_ikm k)) = hash_len h /\
-      hmac h (eff_salt h (k_salt k)) (k_ikm k) = hmac h (eff_salt h (k_salt k')) (k_ikm k'))
+    (((hmac_key H B (eff_salt h (k_salt k)) <> hmac_key H B (eff_salt h (k_salt k')) \/ k_ikm k <> k_ikm k') /\
+      length prk = hash_len h /\ prk = prk')
      \/
-     (prk <> prk' /\
-      length (firstn n (hmac h prk (salt ++ [1]))) = n /\
-      firstn n (hmac h prk (salt ++ [1])) = firstn n (hmac h prk' (salt ++ [1])))).
-Proof. exact prf_key_separation_reduction. Qed.
+     (hmac_key H B prk <> hmac_key H B prk' /\
+      length (firstn n (hmac H B prk (salt ++ [1]))) = n /\
+      firstn n (hmac H B prk (salt ++ [1])) = firstn n (hmac H B prk' (salt ++ [1])))).
+Proof. exact prf_key_separation_reduction_norm. Qed.
 Print Assumptions C17_prf_key_separation_reduction.
+
+(* the Extract event above is a collision of the HASH on two different, exhibited inputs: the outer
+   inputs (K0 xor opad) || H(inner), or -- with equal normalised keys -- the inner inputs (K0 xor ipad) || m *)
+Theorem C17_hmac_collision_is_hash_collision :
+  forall (Hash : hash_alg -> bytes -> bytes), (forall a x, length (Hash a x) = digest_size a) ->
+  forall a k m k' m',
+    let H := Hash a in let B := block_size a in
+    (hmac_key H B k <> hmac_key H B k' \/ m <> m') ->
+    hmac H B k m = hmac H B k' m' ->
+    let k0 := hmac_key H B k in let k0' := hmac_key H B k' in
+    let inner := xorb k0 (ipad B) ++ m in let inner' := xorb k0' (ipad B) ++ m' in
+    let outer := xorb k0 (opad B) ++ H inner in let outer' := xorb k0' (opad B) ++ H inner' in
+    (outer <> outer' /\ H outer = H outer') \/
+    (k0 = k0' /\ inner <> inner' /\ H inner = H inner').
+Proof. exact hmac_collision_is_hash_collision. Qed.
+Print Assumptions C17_hmac_collision_is_hash_collision.
 
 (* The LITERAL clause "different PRF keys give different keys" is false of the model (and of the
    code: confirmed by the correspondence run, cases Z of the generator): (1) for every HMAC, a PRF
@@ -255,27 +284,74 @@ Proof.
   - eexists; eexists. vm_compute. reflexivity.
 Qed.
 
-(* Non-vacuity of the reductions: with a (bad) constant HMAC two different salts, and two different
-   PRF keys, do derive the same 16-byte key; the exhibited collision is real (16 equal bytes on
+(* Non-vacuity of the reductions: with a (bad) constant HMAC two different salts do derive the same
+   16-byte key; the exhibited collision is real (16 equal bytes on
    different inputs).  std_hmac satisfies the length law for any hash of the right output size. *)
 Example C17_reduction_hypotheses_met :
   let hmac := fun (h : hash) (_ _ : bytes) => zeros (hash_len h) in
   let edpub := fun b : bytes => b in
   let k := mkDKey SHA256 (repeat 7 32) [] (DAesGcm 16) VTink in
-  let k' := mkDKey SHA256 (repeat 8 32) [] (DAesGcm 16) VTink in
   (forall h a b, length (hmac h a b) = hash_len h) /\
   (exists dk dk', [1] <> [2] /\ derive_key hmac edpub k 5 [1] = Some dk /\
                   derive_key hmac edpub k 5 [2] = Some dk' /\ r_material dk = r_material dk' /\
-                  length (r_material dk) = 16%nat) /\
-  (exists dk dk', (eff_salt SHA256 (k_salt k), k_ikm k) <> (eff_salt SHA256 (k_salt k'), k_ikm k') /\
-                  derive_key hmac edpub k 5 [1] = Some dk /\
-                  derive_key hmac edpub k' 5 [1] = Some dk' /\ r_material dk = r_material dk').
+                  length (r_material dk) = 16%nat).
 Proof.
-  cbv zeta. split; [intros h a b; apply zeros_length|]. split.
-  - do 2 eexists. split; [discriminate|]. split; [vm_compute; reflexivity|].
-    split; [vm_compute; reflexivity|]. split; reflexivity.
-  - do 2 eexists. split; [intros E; inversion E|]. split; [vm_compute; reflexivity|].
-    split; [vm_compute; reflexivity|]. reflexivity.
+  cbv zeta. split; [intros h a b; apply zeros_length|].
+  do 2 eexists. split; [discriminate|]. split; [vm_compute; reflexivity|].
+  split; [vm_compute; reflexivity|]. split; reflexivity.
+Qed.
+
+(* PRF-key separation: hypotheses met (a constant hash: two keys with different key bytes derive the
+   same material; the exhibited Extract collision is on different messages) ... *)
+Example C17_prf_key_reduction_hypotheses_met :
+  let Hash := fun a (_ : bytes) => zeros (digest_size a) in
+  let edpub := fun b : bytes => b in
+  let k := mkDKey SHA256 (repeat 7 32) [] (DAesGcm 16) VTink in
+  let k' := mkDKey SHA256 (repeat 8 32) [] (DAesGcm 16) VTink in
+  (forall a x, length (Hash a x) = digest_size a) /\
+  (hmac_key (Hash Hmac.SHA256) 64 (eff_salt SHA256 []), k_ikm k)
+    <> (hmac_key (Hash Hmac.SHA256) 64 (eff_salt SHA256 []), k_ikm k') /\
+  exists dk dk', derive_key (std_hmac Hash) edpub k 5 [1] = Some dk /\
+                 derive_key (std_hmac Hash) edpub k' 5 [1] = Some dk' /\ r_material dk = r_material dk'.
+Proof.
+  cbv zeta. split; [intros a x; apply zeros_length|]. split.
+  - intros E. inversion E.
+  - do 2 eexists. split; [vm_compute; reflexivity|]. split; [vm_compute; reflexivity|]. reflexivity.
+Qed.
+
+(* ... and the event is REFUTABLE: no identity of HMAC / HKDF makes it free.  On a toy hash that keeps
+   the leading bytes of its input (so HMAC keeps the leading bytes of the normalised key), two PRF
+   salts with different normalisations give different PRKs and different truncated first blocks:
+   both disjuncts of the conclusion are false, hence such keys cannot derive equal material. *)
+Example C17_prf_key_separation_event_refutable :
+  let Hash := fun a (m : bytes) => firstn (digest_size a) (m ++ zeros (digest_size a)) in
+  let H := Hash Hmac.SHA256 in
+  let ikm := repeat 7 32 in
+  (forall a x, length (Hash a x) = digest_size a) /\
+  hmac_key H 64 [1] <> hmac_key H 64 [2] /\
+  let prk := hmac H 64 [1] ikm in let prk' := hmac H 64 [2] ikm in
+  prk <> prk' /\
+  firstn 16 (hmac H 64 prk ([42] ++ [1])) <> firstn 16 (hmac H 64 prk' ([42] ++ [1])) /\
+  (* while the zero-padding twins are NOT normalised-different: the premise excludes them *)
+  hmac_key H 64 [1] = hmac_key H 64 [1; 0].
+Proof.
+  cbv zeta. split.
+  - intros a x. rewrite firstn_length, app_length, zeros_length. lia.
+  - split; [intros E; vm_compute in E; discriminate|].
+    split; [intros E; vm_compute in E; discriminate|].
+    split; [intros E; vm_compute in E; discriminate|]. vm_compute. reflexivity.
+Qed.
+
+(* the salt-separation event is refutable too: an oracle that keeps the leading bytes of the message
+   separates salt || 01 from salt' || 01 at every positive truncation *)
+Example C17_salt_separation_event_refutable :
+  let hmac := fun (h : hash) (_ m : bytes) => firstn (hash_len h) (m ++ zeros (hash_len h)) in
+  (forall h a b, length (hmac h a b) = hash_len h) /\
+  forall prk, firstn 16 (hmac SHA256 prk ([1] ++ [1])) <> firstn 16 (hmac SHA256 prk ([2] ++ [1])).
+Proof.
+  cbv zeta. split.
+  - intros h a b. rewrite firstn_length, app_length, zeros_length. lia.
+  - intros prk E. vm_compute in E. discriminate.
 Qed.
 
 Example C17_std_hmac_length_law :
